@@ -10,6 +10,7 @@
   with the default) is tied by the correspondence run over sampled configurations.
 -/
 import JP.Lemmas.TokenCfg
+import JP.Lex
 namespace JP.Props.C17
 open JP JP.Query JP.TokenCfg JP.Lemmas
 
@@ -18,6 +19,12 @@ open JP JP.Query JP.TokenCfg JP.Lemmas
 theorem tables_ok :
     spliceOK Generated.lexerRules Generated.lexerEnvTokensLongestFirst = true ∧
     envTokensOK Generated.lexerEnvTokens = true := by decide
+
+/-- **Translated**: the whole rule list and every rule text of `lex.py` are the ones the character-level
+    lexer model `JP.Lex` (in which the splice sits, and against which the implementation is run under every
+    sampled configuration) was written for. -/
+theorem lex_source_ok :
+    Lex.sourceOK Generated.lexerRules Generated.lexerPatterns Generated.lexerInitPatterns = true := by decide
 
 /-- What the lexer returns is one of the configured spellings, and it consumed exactly that spelling. -/
 theorem lexEnv_sound (cfg : Cfg) (input : Str) (k : Ident) (rest : Str)
